@@ -71,10 +71,11 @@ var eqTypes = map[int]reflect.Type{
 	103: reflect.TypeOf([][]int(nil)), 104: reflect.TypeOf([]eqS1(nil)), 105: reflect.TypeOf([]map[string]int(nil)),
 	106: reflect.TypeOf([]float64(nil)), 107: reflect.TypeOf([]**int(nil)), 108: reflect.TypeOf([]*eqS1(nil)),
 	109: reflect.TypeOf([]func(int) int(nil)), 110: reflect.TypeOf([]int8(nil)), 111: reflect.TypeOf([]bool(nil)),
-	112: reflect.TypeOf([]eqS2(nil)),
+	112: reflect.TypeOf([]eqS2(nil)), 113: reflect.TypeOf([]uint8(nil)),
 
 	120: reflect.TypeOf([3]int{}), 121: reflect.TypeOf([2]string{}), 122: reflect.TypeOf([2][]int{}),
 	123: reflect.TypeOf([1]*int{}), 124: reflect.TypeOf([0]int{}), 125: reflect.TypeOf([2]int{}),
+	126: reflect.TypeOf([3]uint8{}), 127: reflect.TypeOf([2]int8{}),
 
 	140: reflect.TypeOf(map[string]int(nil)), 141: reflect.TypeOf(map[int]string(nil)), 142: reflect.TypeOf(map[string][]int(nil)),
 	143: reflect.TypeOf(map[bool]*int(nil)), 144: reflect.TypeOf(map[string]eqS1(nil)), 145: reflect.TypeOf(map[string]int8(nil)),
